@@ -10,7 +10,9 @@ PROP = "C10"
 QUICK_WORKERS = 4
 
 WORDS = ["a", "b", "c", "d", "e", "ab", "ba", "x1", "foo", "bar", "baz", "qux", "été", "über", "αβ", "γ",
-         "中", "文字", "naïve", "_u", "w2w", "Zed", "k9", "да"]
+         "中", "文字", "naïve", "_u", "w2w", "Zed", "k9", "да",
+         # words that are also names of built-in functions or types (none is a keyword or a literal): bound, they are ordinary names
+         "date", "time", "duration", "number", "string", "count", "sum", "min", "abs", "years", "before"]
 # parts of a name after the first may begin with a digit (`tier 2 rate`, `route 66`, `covid-19 cases`)
 DIGIT_WORDS = ["2", "66", "9x", "19", "007"]
 SYMS = [".", "/", "-", "'", "+", "*"]
@@ -152,7 +154,10 @@ class T:
             for i in range(n):
                 if i > 0 and self.src.bool(0.2):
                     toks.append(self.src.choice(["-", "+", "*", "/", "'"]))
-                toks.append(self.src.choice(DIGIT_WORDS) if i > 0 and self.src.bool(0.12) else self.src.choice(self.words + ["zz", "yy", "vv"]))
+                # (declared names avoid date / time / duration: unbound, these three words are tokens of their own for the lexer -- temporal
+                # function names -- so a parameter or an entry followed by a path with such a name is a syntax matter, not name resolution)
+                toks.append(self.src.choice(DIGIT_WORDS) if i > 0 and self.src.bool(0.12) else
+                            self.src.choice([w for w in self.words if w not in ("date", "time", "duration")] + ["zz", "yy", "vv"]))
             if nf(toks) not in self.bound and nf(toks) not in extra:
                 if decl and self.has_bound_prefix(toks, extra):
                     self.labels.append("declaration-with-bound-prefix")
